@@ -376,6 +376,10 @@ func descDepth(v ssa.Value, depth int) string {
 				return "{" + strings.Join(parts, ",") + "}"
 			}
 		}
+		// s[:strings.Index(s, sep)] and s[strings.Index(s, sep)+len(sep):] are the two halves strings.Cut(s, sep) returns
+		if cut, ok := cutHalf(x, depth); ok {
+			return cut
+		}
 		s := descDepth(x.X, depth) + "["
 		if x.Low != nil {
 			s += descDepth(x.Low, depth)
@@ -534,6 +538,20 @@ func condLabel(cond ssa.Value, want bool) string {
 						return "EQ(" + desc(a) + ",const:0)"
 					case op == token.GEQ && n == 1, op == token.GTR && n == 0:
 						return "NE(" + desc(a) + ",const:0)"
+					}
+				}
+			}
+			// i := strings.Index(s, sep): `i >= 0` is the `found` answer of strings.Cut(s, sep), `i < 0` its negation
+			if sd, sep, ok := indexCall(a); ok {
+				if k, isK := b.(*ssa.Const); isK && k.Value != nil && k.Value.Kind() == constant.Int {
+					if n, exact := constant.Int64Val(k.Value); exact {
+						found := "call:strings.Cut(" + sd + "," + sep + ")#2"
+						switch {
+						case op == token.GEQ && n == 0, op == token.GTR && n == -1, op == token.NEQ && n == -1:
+							return "T(" + found + ")"
+						case op == token.LSS && n == 0, op == token.LEQ && n == -1, op == token.EQL && n == -1:
+							return "F(" + found + ")"
+						}
 					}
 				}
 			}
@@ -861,4 +879,57 @@ func callForm(fn *ssa.Function, k int, argDescs ...string) string {
 		return s + fmt.Sprintf("#%d", k)
 	}
 	return s
+}
+
+// indexCall: v is strings.Index / IndexByte / IndexRune (first occurrence) of a constant separator in s.
+// Returns the rendering of s and of the separator as a string constant.
+func indexCall(v ssa.Value) (string, string, bool) {
+	call, ok := v.(*ssa.Call)
+	if !ok || len(call.Call.Args) != 2 {
+		return "", "", false
+	}
+	k, ok := call.Call.Args[1].(*ssa.Const)
+	if !ok || k.Value == nil {
+		return "", "", false
+	}
+	switch calleeName(call) {
+	case "strings.Index":
+		if k.Value.Kind() != constant.String {
+			return "", "", false
+		}
+		return desc(call.Call.Args[0]), "const:" + constString(k), true
+	case "strings.IndexByte", "strings.IndexRune":
+		n, exact := constant.Int64Val(constant.ToInt(k.Value))
+		if !exact || n <= 0 || n > 127 {
+			return "", "", false
+		}
+		return desc(call.Call.Args[0]), fmt.Sprintf("const:%q", string(rune(n))), true
+	}
+	return "", "", false
+}
+
+// cutHalf: the slice expression is one of the halves of strings.Cut.
+func cutHalf(x *ssa.Slice, depth int) (string, bool) {
+	if b, ok := x.X.Type().Underlying().(*types.Basic); !ok || b.Info()&types.IsString == 0 || x.Max != nil {
+		return "", false
+	}
+	xd := descDepth(x.X, depth)
+	if x.Low == nil && x.High != nil {
+		if sd, sep, ok := indexCall(x.High); ok && sd == xd {
+			return "call:strings.Cut(" + xd + "," + sep + ")#0", true
+		}
+	}
+	if x.High == nil && x.Low != nil {
+		if bo, ok := x.Low.(*ssa.BinOp); ok && bo.Op == token.ADD {
+			if k, isK := bo.Y.(*ssa.Const); isK && k.Value != nil {
+				if sd, sep, ok := indexCall(bo.X); ok && sd == xd {
+					sepLen := int64(len(sep) - len(`const:""`))
+					if n, exact := constant.Int64Val(constant.ToInt(k.Value)); exact && n == sepLen {
+						return "call:strings.Cut(" + xd + "," + sep + ")#1", true
+					}
+				}
+			}
+		}
+	}
+	return "", false
 }
